@@ -412,7 +412,7 @@ func receiveSetsError(c *core.Ctx) {
 		astx.ForEachExit(info, fd.Body, func(s *astx.State, kind astx.ExitKind, ret *ast.ReturnStmt) {
 			closed := s.CountCalls(func(call *ast.CallExpr) bool {
 				sel, ok := call.Fun.(*ast.SelectorExpr)
-				return ok && strings.HasPrefix(sel.Sel.Name, "Close") && astx.IsFieldNamed(info, sel.X, "requestBodyReader")
+				return ok && strings.HasPrefix(sel.Sel.Name, "Close") && (astx.IsFieldNamed(info, sel.X, "requestBodyReader") || astx.TypeIs(derefType(info.TypeOf(sel.X)), "io", "PipeReader"))
 			})
 			if closed == 0 {
 				probs = append(probs, "an exit of SetError leaves the request pipe open")
